@@ -334,15 +334,44 @@ def h0_is_zero(case):
     return gq.is_zero(gq.dec(case["H"][gen.key((0,) * case["nparam"])]))
 
 
+def has_partial_mask(case):
+    """mask mode with a block mask that eliminates some but not all off-diagonal pairs (the only situation in
+    which the diagonal-block part of the "Yadj" series of algorithms.main is non-zero)."""
+    f = case["fully"]
+    if not isinstance(f, dict):
+        return False
+    for m in f.values():
+        n = len(m)
+        off = [m[i][j] for i in range(n) for j in range(n) if i != j]
+        if any(off) and not all(off):
+            return True
+    return False
+
+
+def focused_case(rng, N, focus, accept=None, **kw):
+    """gen.random_case by rejection: focus = "any" | "partial-mask"; never H_0 = 0 (rejected by the library)."""
+    for _ in range(2000):
+        case = gen.random_case(rng, hermitian=True, N=N, **kw)
+        if h0_is_zero(case):
+            continue
+        if focus == "partial-mask" and not has_partial_mask(case):
+            continue
+        if accept is not None and not accept(case):
+            continue
+        return case
+    raise RuntimeError("generator could not produce a case with focus %r" % focus)
+
+
 def make_cases(rng, count, Ns, max_blocks=3, max_size=3, max_params=2, scales_per_case=2, full_scales=False):
+    """Every third case is a partial-mask case at N >= 3 (first place where the diagonal "Yadj" term matters)."""
     jobs = []
     for k in range(count):
         N = Ns[k % len(Ns)]
-        while True:
-            case = gen.random_case(rng, hermitian=True, N=N, max_blocks=max_blocks, max_size=max_size,
-                                   max_params=max_params)
-            if not h0_is_zero(case):  # H_0 = 0 is rejected by the library (ValueError), not a C04 input
-                break
+        focus = "any"
+        if k % 3 == 2:
+            focus = "partial-mask"
+            N = max(N, 3)
+        case = focused_case(rng, N, focus, max_blocks=max_blocks, max_size=max_size, max_params=max_params)
         if case["nparam"] == 1:
             ns = 1  # another scale would only rescale x
         else:
